@@ -6,8 +6,10 @@ From Salsa.Core Require Import Model Spec Inv InvTop.
 
 (* For every acyclic program, every history and every setting of the fault switches over
    time (the oracle): each Get either returns the from-scratch value of the current inputs,
-   or unwinds with an injected panic -- and the latter only while some switch is on -- or with
-   the backdate-violation assertion.  In particular a Get that panics returns no value, the
+   or unwinds with an injected panic -- raised by a fault point in a body, by the user's
+   PartialEq during backdating (switch EQ_FAULT) or by the event callback (armed countdown), and
+   only while some switch is on / the countdown is armed -- or with the backdate-violation
+   assertion.  In particular a Get that panics returns no value, the
    state it leaves is again a good state (the induction goes through it: claims are dropped,
    nothing of the interrupted computation is stored for the interrupted node), and every
    later Get -- in the same revision or a later one -- made while no switch is on returns
@@ -40,7 +42,7 @@ Theorem C22_get_outcomes : forall prog NF s q r,
   get_ok prog NF s q r ->
   r = Ok (eval prog NF (snap_of s) q) \/
   r = Panic PBackdate \/
-  (r = Panic PInjected /\ exists c, d_pcell s c <> 0).
+  (r = Panic PInjected /\ ((exists c, d_pcell s c <> 0) \/ d_evfault s <> None)).
 Proof.
   intros prog NF s q r [H | (p & -> & [-> | [-> Hc]])]; auto.
 Qed.
@@ -48,5 +50,5 @@ Check C22_get_outcomes : forall prog NF s q r,
   get_ok prog NF s q r ->
   r = Ok (eval prog NF (snap_of s) q) \/
   r = Panic PBackdate \/
-  (r = Panic PInjected /\ exists c, d_pcell s c <> 0).
+  (r = Panic PInjected /\ ((exists c, d_pcell s c <> 0) \/ d_evfault s <> None)).
 Print Assumptions C22_get_outcomes.
